@@ -44,6 +44,9 @@ pub struct Case {
     /// insertion order into the builder (a permutation of the indices, parents first). The relative
     /// order of siblings in `order` defines their creation order.
     pub order: Vec<usize>,
+    /// the run is stopped by an event-count limit with self messages still pending: tear-down happens all the same
+    #[serde(default)]
+    pub limit: Option<usize>,
 }
 
 impl Case {
@@ -253,7 +256,11 @@ pub fn execute(case: &Case) -> (Vec<Finding>, usize) {
         let mut want = declared.clone();
         want.sort();
         let nodes_ok = built == want;
-        let rt = Builder::seeded(1).quiet().build(sim.freeze());
+        let mut b = Builder::seeded(1).quiet();
+        if let Some(n) = case.limit {
+            b = b.max_itr(n);
+        }
+        let rt = b.build(sim.freeze());
         (rt.run().is_ok(), nodes_ok)
     });
     let log = LOG.with(|l| std::mem::take(&mut *l.borrow_mut()));
@@ -269,7 +276,9 @@ pub fn execute(case: &Case) -> (Vec<Finding>, usize) {
             }
             let panics = case.nodes.iter().filter(|d| d.panic_on_ping && d.ping_ns.is_some() && d.stages > 0 && !d.shutdown_in_stage0).count();
             let err_expected = case.nodes.iter().any(|d| d.end_err) || panics > 0;
-            if ok == err_expected {
+            // (under a limit the panicking message may not have been reached)
+            let undecided = case.limit.is_some() && panics > 0 && !case.nodes.iter().any(|d| d.end_err);
+            if ok == err_expected && !undecided {
                 f.push(("run-error", format!("run() returned {}, {} module(s) report an error from at_sim_end, {panics} panic while handling a message", if ok { "Ok" } else { "an error" }, case.nodes.iter().filter(|d| d.end_err).count())));
             }
         }
@@ -318,7 +327,7 @@ pub fn execute(case: &Case) -> (Vec<Finding>, usize) {
     let msgs = log.iter().filter(|e| matches!(e, Ev::Msg(_))).count();
     // (a module that shut itself down during start-up does not handle its ping)
     let want_msgs = case.nodes.iter().filter(|n| n.ping_ns.is_some() && n.stages > 0 && !n.shutdown_in_stage0).count();
-    if msgs != want_msgs {
+    if (case.limit.is_none() && msgs != want_msgs) || msgs > want_msgs || case.limit.is_some_and(|n| msgs > n) {
         f.push(("messages", format!("{msgs} self messages handled, {want_msgs} scheduled")));
     }
     (f, starts.len())
@@ -545,7 +554,12 @@ pub fn cmd(args: &Args) -> Report {
             (0..3).map(|_| random_order(&mut rng, &nodes)).collect()
         };
         for order in orders {
-            let case = Case { nodes: nodes.clone(), order };
+            let pings = nodes.iter().filter(|n| n.ping_ns.is_some()).count();
+            let limit = if rng.chance(1, 5) { Some(rng.usize_below(pings + 1)) } else { None };
+            let case = Case { nodes: nodes.clone(), order, limit };
+            if limit.is_some_and(|n| n < pings) {
+                rep.count("runs_stopped_by_an_event_limit_with_messages_pending", 1);
+            }
             vcommon::mark_case(&format!("c12:{}:{}:{}", args.seed, args.shard, i));
             let (mut findings, starts) = execute(&case);
             rep.eval();
